@@ -339,6 +339,8 @@ class FrameTrack:
                 a = f'{self.touch}({P.addr(o)})'
                 if a not in out:
                     out.append(a)
+        if id(n) in getattr(self, 'row_sliced', ()):
+            return out          # the capture inside `<capture>.slice(range)`: its (conditional) write was printed by the spec's hook
         if self.mention(P, n):
             ctx = self.context(parents)
             if ctx == 'mutable' and self.const_view(n) and not self.assigned_to(n, parents):
